@@ -4,6 +4,7 @@ import (
 	"fmt"
 	"math"
 	"strings"
+	"unicode/utf8"
 
 	pr "github.com/benoitkugler/webrender/css/properties"
 	"github.com/benoitkugler/webrender/utils"
@@ -232,9 +233,10 @@ func (c CounterStyle) renderValue(counterValue int, counter *CounterStyleDescrip
 
 	// Step 4
 	pad := counter.Pad
-	padDifference := pad.Int - len(initial)
+	// the pad length is a number of grapheme clusters (approximated by code points), not of bytes
+	padDifference := pad.Int - utf8.RuneCountInString(initial)
 	if isNegative && useNegative {
-		padDifference -= len(negativePrefix) + len(negativeSuffix)
+		padDifference -= utf8.RuneCountInString(negativePrefix) + utf8.RuneCountInString(negativeSuffix)
 	}
 	if padDifference > 0 {
 		initial = strings.Repeat(symbol(pad.NamedString), padDifference) + initial
